@@ -255,8 +255,10 @@ def run(tier: str, seed: int) -> core.Report:
     rep.assumptions = ["component path observed through current_context().path inside start()", "entry points provided by a real dist-info directory on sys.path",
                        "a hard-coded child overridden by None, and a root configuration containing 'type', are unspecified and not generated"]
     # recorded executions: what every ComponentContext was asked to add against what it delegated to the context (Trace_CtxSuite.StepCAdd)
-    from .. import suitectx
+    from .. import plugins, suitectx
     suitectx.add_to(rep, PROP)
+    # naming a type: entry-point name / module:attr reference / the object itself (specs/Plugins.tla)
+    plugins.add_to(rep, PROP)
     return rep
 
 
@@ -264,6 +266,9 @@ def replay(scenario: dict):
     if "recorded" in scenario:
         from .. import suitectx
         return suitectx.replay(PROP, scenario)
+    if "plugins" in scenario:
+        from .. import plugins
+        return plugins.replay(PROP, scenario)
     rec = execute({"id": "replay", "scn": scenario["scn"], "backend": scenario.get("backend", "asyncio")})
     verdicts, _, _ = core.validate_traces("Trace_C14", [rec])
     v = verdicts["replay"]
